@@ -53,13 +53,16 @@ fn view(m: &Melda) -> Value {
 /// prepared states: returns (target replica, other replica)
 fn prepare(state: &str) -> (Melda, Melda) {
     // cache capacities are read from the environment when a replica is constructed
-    std::env::set_var("MELDA_ARRAYDESCRIPTORS_CACHE_CAP", if state == "multi-array-behind" { "3" } else { "16" });
-    if state == "multi-array-behind" {
+    std::env::set_var("MELDA_ARRAYDESCRIPTORS_CACHE_CAP", if state.starts_with("multi-array") { "3" } else { "16" });
+    if state.starts_with("multi-array") {
+        let front = state == "multi-array-front";
         // three flattened arrays; the reader has cached version 2 of each (cache full), then receives
         // versions 3 and 4 (edit scripts): reconstruction walks back to the cached ancestor
         let ver = |n: u32| {
             let el = |p: &str, k: u32| json!({"_id": format!("{}{}", p, k), "v": 1});
-            let mk = |p: &str| -> Vec<Value> { (0..=n).map(|k| el(p, k)).collect() };
+            // appended elements (patches insert at the end) or prepended ones (patches insert at index 0,
+            // which also applies to an empty array)
+            let mk = |p: &str| -> Vec<Value> { if front { (0..=n).rev().map(|k| el(p, k)).collect() } else { (0..=n).map(|k| el(p, k)).collect() } };
             json!({"l♭": mk("l"), "m♭": mk("m"), "k♭": mk("k")})
         };
         let a = new_replica();
@@ -186,6 +189,7 @@ pub fn body_list(thorough: bool) -> Vec<(&'static str, &'static str)> {
         ("array-conflict", "queries"),
         ("multi-array-behind", "read"),
         ("multi-array-behind", "update"),
+        ("multi-array-front", "read"),
     ];
     if thorough {
         v.extend(vec![
